@@ -1744,21 +1744,22 @@ func runC08(c *core.Ctx) {
 			c.Violation("file", fmt.Sprintf("expected 4 row groups, got %v", b4.rgRows), p4)
 			return
 		}
-		palpha, nalpha := []string{"r"}, []string{"r1", "r3", "r64", "x"}
-		seen := map[int64]bool{}
-		for g := range b4.rgOff {
-			for _, k := range []int64{b4.rgOff[g], b4.rgOff[g] + 1, b4.rgOff[g] + b4.rgRows[g] - 1} {
-				if !seen[k] && (g < 3 || k == b4.rgOff[g]) {
-					seen[k] = true
-					palpha = append(palpha, fmt.Sprintf("s%d", k))
-					if k != b4.rgOff[g]+1 || g == 1 {
-						nalpha = append(nalpha, fmt.Sprintf("s%d", k))
-					}
-				}
+		// seeks to the first row of every row group, to the last row of the second
+		// one (and, thorough, the second row of the third one), to N and beyond
+		palpha, nalpha := []string{"r"}, []string{"r1", "r64", "x"}
+		for g, off := range b4.rgOff {
+			palpha = append(palpha, fmt.Sprintf("s%d", off))
+			if g > 0 {
+				nalpha = append(nalpha, fmt.Sprintf("s%d", off))
 			}
 		}
-		palpha = append(palpha, fmt.Sprintf("s%d", b4.total), fmt.Sprintf("s%d", b4.total+3))
-		nalpha = append(nalpha, fmt.Sprintf("s%d", b4.total))
+		last1 := fmt.Sprintf("s%d", b4.rgOff[2]-1)
+		palpha = append(palpha, last1, fmt.Sprintf("s%d", b4.total), fmt.Sprintf("s%d", b4.total+3))
+		nalpha = append(nalpha, last1, fmt.Sprintf("s%d", b4.total))
+		if !c.Quick() {
+			palpha = append(palpha, fmt.Sprintf("s%d", b4.rgOff[2]+1))
+			nalpha = append(nalpha, "r3", "s0", fmt.Sprintf("s%d", b4.rgOff[2]+1))
+		}
 		for _, nest := range c08NestShapes(4) {
 			for _, col := range []int{0, 2, 4} {
 				if c.Quick() && col != 2 {
@@ -1772,7 +1773,7 @@ func runC08(c *core.Ctx) {
 		}
 	}
 	c.Res.Exhaustive = true
-	c.Note("exhaustive, one operation shorter: the page and row alphabets on encrypted 22-row files (encrypted footer; plaintext footer with column keys; read buffer default and 64 bytes), and {ReadPage, SeekToRow(first row, second row, last row of every row group, N, N+3)} / {ReadRows 1/3/64, Reset, SeekToRow(first and last row of every row group, N)} on the column pages and the rows of a file of 4 row groups of 5, 8, 3 and 6 rows combined with MultiRowGroup in the shapes %v", c08NestShapes(4))
+	c.Note("exhaustive, one operation shorter: the page and row alphabets on encrypted 22-row files (encrypted footer; plaintext footer with column keys; read buffer default and 64 bytes), and {ReadPage, SeekToRow(first row of every row group, last row of the second one, N, N+3)} / {ReadRows 1/64, Reset, SeekToRow(first row of every row group but the first, last row of the second one, N)} on the column pages and the rows of a file of 4 row groups of 5, 8, 3 and 6 rows combined with MultiRowGroup in the shapes %v", c08NestShapes(4))
 	c.Note("exhaustive: all histories of length %d (async pages: %d) over the alphabets {ReadPage, SeekToRow(0, first page boundary -1/0/+1, page 5 boundary 0/+1, N-1, N, N+3)[, load index]} and {ReadRows 1/3/64[, Reader.Read], SeekToRow(0, boundary-1, boundary[, +1], N-1, N), Reset} on 22-row files; the same on the rows of the MultiRowGroup over both row groups, and {ReadPage, SeekToRow(0, row-group boundary -1/0/+1, first page boundary of each row group, N-1, N, N+3)} on its column pages (multiPages)", length, length-1)
 
 	// ---- random histories on larger files
